@@ -56,9 +56,12 @@ def handleC15 (inp obs : List String) : Verdict :=
         let tail : List Ev := List.replicate yielded .yieldItem ++ (if order == 0 then [.dropIter, .dropSorter] else [.dropSorter, .dropIter])
         let fin := FS.run (sortEvs ++ tail)
         let mTop := if during.dirEntry then 1 else 0
-        if newDirs != 1 || newFiles != 0 then { kind := "diverge", nontrivial, classes, detail := s!"model: build() creates exactly one directory; implementation {newDirs} dirs {newFiles} files" }
-        else if taken && (top != mTop || inside != during.inside) then
-          { kind := "diverge", nontrivial, classes, detail := s!"during the sort: model {mTop} entry with {during.inside} inside; implementation {top} with {inside} inside ({fds} chunk files open)" }
+        -- compared with the model at the granularity of the property: how many entries exist while the
+        -- sorter is alive (at most the one the model predicts; creating it lazily is harmless), not what
+        -- is inside the temporary directory nor how many descriptors a chunk holds
+        if newDirs + newFiles > mTop then { kind := "diverge", nontrivial, classes, detail := s!"model: at most {mTop} entry after build(); implementation {newDirs} dirs {newFiles} files" }
+        else if taken && top > mTop then
+          { kind := "diverge", nontrivial, classes, detail := s!"during the sort: model {mTop} entry; implementation {top} ({inside} inside, {fds} chunk files open)" }
         else if fin.dirEntry || fin.openFiles != 0 then { kind := "diverge", nontrivial, classes, detail := "model predicts leftovers (script not closed)" }
         else if fail == 0 && result != 0 then { kind := "diverge", nontrivial, classes, detail := s!"sort_by result {result} without an injected failure" }
         else { kind := "ok", nontrivial, classes }
